@@ -128,10 +128,96 @@ class Check(PropertyCheck):
                 nb += 1
                 self.findings.append(Finding(f"{what[0]}:{kind}:{spec!r}"[:200], what[1],
                                              {"spec": repr(spec), "backend": kind, "limits": dry["limits"]}))
+        nb += self.world_scenarios()
         self.stat("oracle", "violations", nb)
         self.ob("oracle", "implementation oracle ran (no submissions / consumption in dry runs; complete dry run = real run; "
                 "incomplete dry run => real run executes a task)", True)
 
+    def world_scenarios(self, only=None):
+        """Histories in which the real run depends on more than the recorded graph: cache=False tasks reading an
+        execution counter below cached parents, and File results edited outside redun (seeded change C28a). A history
+        is built by real runs, the database file is copied, a dry run and a real run are made on the two copies."""
+        import logging
+        import os
+        from redun import Scheduler
+        from redun.config import Config
+        from redun.scheduler import DryRunResult
+        from harness.progs import c28_tasks as T
+        logging.getLogger("redun").setLevel(logging.ERROR)
+        tmp = scratch_dir("rv_c28w_")
+        nb = 0
+        scen = [(kind, depth, wraps, world, nprev)
+                for kind in ("stamp", "report", "const") for depth in (0, 1, 2)
+                for wraps in (("wrap_full",), ("wrap_shallow", "wrap_full"))
+                for world in ("same", "bump-generation", "edit-file", "delete-file") for nprev in (1, 2)
+                if not (kind != "report" and world in ("edit-file", "delete-file"))]
+        if only is not None:
+            scen = [tuple(tuple(x) if isinstance(x, list) else x for x in only)]
+        elif self.tier == "quick":
+            self.rng.shuffle(scen)
+            scen = scen[:30]
+
+        def mk(db):
+            s = Scheduler(config=Config({"backend": {"db_uri": f"sqlite:///{db}"}}))
+            s.load()
+            s.logger.disabled = True
+            return s
+        try:
+            for i, (kind, depth, wraps, world, nprev) in enumerate(scen):
+                d = tmp / f"w{i}"
+                d.mkdir()
+                path = str(d / "data.txt")
+                arg = path if kind == "report" else i
+                T.WORLD["gen"], T.WORLD["clock"] = 1, {}
+                expr = lambda: T.build(kind, arg, depth, wraps)
+                db = d / "base.db"
+                for _ in range(nprev):
+                    mk(db).run(expr())
+                if world == "bump-generation":
+                    T.WORLD["gen"] += 1
+                elif world == "edit-file" and os.path.exists(path):
+                    with open(path, "w") as fh:
+                        fh.write("edited outside redun, longer than before")
+                elif world == "delete-file" and os.path.exists(path):
+                    os.remove(path)
+                a, b = d / "dry.db", d / "real.db"
+                shutil.copy(db, a)
+                shutil.copy(db, b)
+                del T.CALLS[:]
+                snapshot = json.dumps(T.WORLD, sort_keys=True)
+                try:
+                    dry = ("complete", mk(a).run(expr(), dryrun=True))
+                except DryRunResult:
+                    dry = ("stopped", None)
+                dry_calls = list(T.CALLS)
+                world_touched = json.dumps(T.WORLD, sort_keys=True) != snapshot
+                del T.CALLS[:]
+                real = mk(b).run(expr())
+                real_calls = list(T.CALLS)
+                self.evaluations += 1
+                self.stat("world", f"{kind}/{world}/dry-{dry[0]}")
+                what = None
+                if dry_calls or world_touched:
+                    what = ("dryrun-called-task", f"the dry run called {dry_calls}")
+                elif dry[0] == "complete" and norm(dry[1]) != norm(real):
+                    what = ("dryrun-mispredicts", f"the dry run completed with {dry[1]!r}, the real run on the same backend "
+                            f"returns {real!r} after executing {real_calls}")
+                elif dry[0] == "stopped" and not real_calls:
+                    what = ("dryrun-stops-but-nothing-to-do", "the dry run stopped early but the real run executed no task")
+                if what:
+                    nb += 1
+                    self.findings.append(Finding(f"world:{what[0]}:{kind}:{depth}:{'+'.join(wraps)}:{world}:{nprev}", what[1],
+                                                 {"world_scenario": [kind, depth, list(wraps), world, nprev]}))
+        finally:
+            shutil.rmtree(tmp, ignore_errors=True)
+        return nb
+
     def replay(self, doc):
+        r = doc.get("replay", {})
+        if "world_scenario" in r:
+            self.findings, self.evaluations = [], 0
+            n = self.world_scenarios(only=r["world_scenario"])
+            print("replay:", "still fails: " + self.findings[0].what if n else "holds now")
+            return 1 if n else 0
         print("replay: re-run ./check C28 with the same VERIF_SEED; stored case:", json.dumps(doc.get("replay"))[:600])
         return 1
